@@ -32,6 +32,32 @@ def load_source_module(relpath, name=None):
     return mod
 
 
+def find_fragment(fn, src, start_re, end_re):
+    """innermost statement list of `fn` containing a statement whose first line matches start_re; the slice from
+    there to the first later statement (same list) whose first line matches end_re, inclusive"""
+    import re
+    lines = src.splitlines()
+
+    def first_line(node):
+        return lines[node.lineno - 1].strip()
+    best = None
+
+    def walk(stmts):
+        nonlocal best
+        for i, s_ in enumerate(stmts):
+            if re.search(start_re, first_line(s_)):
+                for j in range(i, len(stmts)):
+                    if re.search(end_re, first_line(stmts[j])):
+                        best = stmts[i:j + 1]
+                        break
+            for fld in ("body", "orelse", "finalbody"):
+                sub = getattr(s_, fld, None)
+                if isinstance(sub, list) and sub and isinstance(sub[0], ast.stmt) and not isinstance(s_, ast.FunctionDef):
+                    walk(sub)
+    walk(fn.body)
+    return best
+
+
 class PyUnit:
     kind = "py"
 
@@ -110,8 +136,9 @@ class PyUnit:
         st = PState()
         e = Env()
         self._ex = ex
+        frag = self.options.get("fragment")
         names = ex.param_names()
-        if names != [n for n, _ in self.params]:
+        if frag is None and names != [n for n, _ in self.params]:
             raise StaleContract("parameters of %s are %s, contract describes %s" % (self.qualname, names, [n for n, _ in self.params]))
         args = [self.make_arg(ex, st, e, n, k) for n, k in self.params]
         # objects passed in exist already: their addresses are below the allocation pointer
@@ -131,7 +158,21 @@ class PyUnit:
             res.cover_failures.append("precondition of %s is not satisfiable (or undecided)" % self.uid)
         else:
             res.covers += 1
-        outs = ex.run(st, args)
+        if frag is None:
+            outs = ex.run(st, args)
+        else:
+            # fragment subject: a contiguous statement range inside the function, located by source anchors on
+            # every run; the "parameters" are the locals live at its entry (typed by the sidecar)
+            stmts = find_fragment(fn, src, frag["start"], frag["end"])
+            if stmts is None:
+                raise StaleContract("fragment %r .. %r not found in %s" % (frag["start"], frag["end"], self.qualname))
+            ftext = "\n".join(ast.get_source_segment(src, x) or "" for x in stmts)
+            for (nm, _k), a in zip(self.params, args):
+                st.vars[nm] = a
+            outs = []
+            for o in ex.exec_block(st, stmts):
+                outs.append(("return", o[1], PNone()) if o[0] == "normal" else ("raise", o[1], o[2]) if o[0] == "raise"
+                            else ("return", o[1], o[2]) if o[0] == "return" else ("return", o[1], PNone()))
         feasible = 0
         for kind, s, v in outs:
             e2 = Env(**e.__dict__)
